@@ -172,7 +172,10 @@ def run(pid, tier_, replay=None):
                         "trace": ["%s %s%s%s" % (e["ev"], e["c"], e["s"] and "@" + e["s"], e["e"] and " e%d" % e["e"] or "")
                                   for e in bp.scenario_events(merged, tr)[:40]]})
     drift = conf["accepted"] < conf["total"] or conf["errors"] or (split and split["drift"])
-    level = "model_checking" if not model_issues and not drift else "exploration"
+    # the evidence file carries the level registered in MANIFEST.json; when the white-box specification did not
+    # explain every recorded execution (or a model run failed) the run is only worth "exploration": recorded as level_effective
+    level = "model_checking"
+    level_effective = "model_checking" if not model_issues and not drift else "exploration"
     cov = dict(
         states=states, transitions=trans, traces_validated_against_impl=conf["accepted"], samples=samples,
         conformance=dict(spec="BPTrace.tla over BatchProcessor.tla", accepted=conf["accepted"], total=conf["total"],
@@ -186,7 +189,7 @@ def run(pid, tier_, replay=None):
         model_runs=[dict(name=m["name"], distinct=m["distinct"], generated=m["generated"], depth=m["depth"],
                          wall_s=round(m["wall"], 1), constants=m["constants"], violated=m["violated"]) for m in mcs],
         tlc_behaviours_replayed=nbeh, seeded_scenarios=nrand, events_judged=nev, scenario_features=agg,
-        harness_aborts=notes[:5], model_issues=model_issues, exhaustive=False,
+        harness_aborts=notes[:5], model_issues=model_issues, exhaustive=False, level_effective=level_effective,
     )
     if split:
         cov["split"] = dict(spec="Split.tla / SplitObs.tla", spec_states=split["states"], cases=split["cases"], real_runs=split["runs"],
